@@ -991,7 +991,7 @@ spf_domainspec(const char *domain, const char *token, char **domainspec, int *ip
 				return SPF_PERMERROR;
 			}
 			*ip4cidr = strtol(c, &cend, 10);
-			if ((*ip4cidr > 32) || (!WSPACE(*cend) && (*cend != '/') && (*cend != '\0'))) {
+			if ((*ip4cidr < 0) || (*ip4cidr > 32) || (!WSPACE(*cend) && (*cend != '/') && (*cend != '\0'))) {
 				free(*domainspec);
 				return SPF_PERMERROR;
 			}
@@ -1012,7 +1012,7 @@ spf_domainspec(const char *domain, const char *token, char **domainspec, int *ip
 				return SPF_PERMERROR;
 			}
 			*ip6cidr = strtol(c, &cend, 10);
-			if ((*ip6cidr > 128) || !(WSPACE(*cend) || (*cend == '\0'))) {
+			if ((*ip6cidr < 0) || (*ip6cidr > 128) || !(WSPACE(*cend) || (*cend == '\0'))) {
 				free(*domainspec);
 				return SPF_PERMERROR;
 			}
